@@ -450,6 +450,41 @@ class Program:
                         return True
         return False
 
+    def safe_subclass_helpers(self) -> set[str]:
+        """Package functions that compute `issubclass(a, b)` of their two parameters and answer False when that raises
+        TypeError (try/except or contextlib.suppress), whatever they are called: the non-raising subclass test."""
+        cached = getattr(self, "_safe_sub", None)
+        if cached is not None:
+            return cached
+        self._safe_sub = set()  # re-entrancy: evaluating a candidate's paths asks this question again
+        from . import paths as P
+        from . import terms as T
+
+        out: set[str] = set()
+        for q, f in self.functions.items():
+            n = f.node
+            if not isinstance(n, ast.FunctionDef) or n.decorator_list or f.cls is not None or len(f.params) != 2:
+                continue
+            if not any(isinstance(x, ast.Call) and self.resolve_expr_name(f.module, x.func) == "builtins.issubclass" for x in ast.walk(n)):
+                continue
+            try:
+                ps = P.paths_of(self, f)
+            except AnalysisError:
+                continue
+            want = ("call", ("ref", "builtins.issubclass"), (("param", f.params[0]), ("param", f.params[1])), ())
+            rets = [p for p in ps if p.exit[0] == "return"]
+            if len(rets) != len(ps) or not rets:
+                continue
+            direct = [p for p in rets if p.exit[1] == want]
+            fallback = [p for p in rets if p.exit[1] == ("const", False)]
+            if not direct or not fallback or len(direct) + len(fallback) != len(rets):
+                continue
+            if all(any("builtins.TypeError" in names for names in P.abandoned(p)) for p in fallback):
+                out.add(q)
+        P._cache.clear()  # paths computed before the helper set was known are discarded
+        self._safe_sub = out
+        return out
+
     def memoised_functions(self) -> dict[str, str]:
         """qualified function name -> memo decorator, including `name = compat.cache(func)` wrappers."""
         out: dict[str, str] = {}
